@@ -23,7 +23,7 @@ from .context import _get_core_defs
 from .core_defs import ALL_MESSAGE_TYPES
 from . import core_defs as cd
 
-from typing import Dict, List, Tuple, Set, Type, Union
+from typing import Dict, List, Optional, Tuple, Set, Type, Union
 from itertools import chain
 from dataclasses import dataclass, field
 from collections import defaultdict, Counter
@@ -184,6 +184,15 @@ class MessageManager(ClientLike):
         )
         self.traffic_counter: typing.Counter[int] = Counter()
         self.traffic_start: float = time.perf_counter()
+
+        # Undelivered (module, error, header) entries of forward_message that wait to be dealt
+        # with. Handling one of them sends notices, whose own failures are appended here instead
+        # of being handled on the spot: hundreds of subscribers failing at the same instant
+        # would otherwise nest one forward_message inside the other until the stack is used up
+        self.undelivered: List[
+            Tuple[Module, Optional[Exception], MessageHeader]
+        ] = []
+        self.handling_undelivered = False
         self.traffic_seqno: int = 1
 
         # Disable Nagle Algorithm
@@ -638,22 +647,33 @@ class MessageManager(ClientLike):
                 print("x", end="", flush=True)
                 dropped.append(module)
 
-        for module, err in failed_writes:
-            # (a notice caused by an earlier entry of this list may already have removed
-            # this module; its failed delivery of this message is still reported)
-            if module.conn in self.modules:
-                self.remove_module(module)
-                self.logger.error(
-                    f"Connection Error on write to {module!s} - {err!s}"
-                )
-                print("x", end="", flush=True)
-            # this could result in infinite recursion,
-            # this is prevented by send_failed_message returning if
-            # failed message type is failed_message.
-            self.send_failed_message(module, header, time.perf_counter())
+        self.undelivered.extend((module, err, header) for module, err in failed_writes)
+        self.undelivered.extend((module, None, header) for module in dropped)
 
-        for module in dropped:
-            self.send_failed_message(module, header, time.perf_counter())
+        # the notices below are forwarded messages themselves: what they fail to deliver is
+        # queued by the nested call and dealt with here, one entry after the other
+        if self.handling_undelivered:
+            return
+
+        self.handling_undelivered = True
+        try:
+            while self.undelivered:
+                module, err, failed_header = self.undelivered.pop(0)
+                if err is not None:
+                    # (a notice caused by an earlier entry may already have removed this
+                    # module; its failed delivery of this message is still reported)
+                    if module.conn in self.modules:
+                        self.remove_module(module)
+                        self.logger.error(
+                            f"Connection Error on write to {module!s} - {err!s}"
+                        )
+                        print("x", end="", flush=True)
+                # this could result in infinite recursion,
+                # this is prevented by send_failed_message returning if
+                # failed message type is failed_message.
+                self.send_failed_message(module, failed_header, time.perf_counter())
+        finally:
+            self.handling_undelivered = False
 
     def send_to_loggers(
         self,
